@@ -454,7 +454,9 @@ def arm_conv(R, b, v, bs, sk, nf, a, f, container, where):
         # sites of the arm: child hand-over + (None-merge, accumulate-merge, collapsed stop-merge)
         merges = [s for s in a["sites"] if s.kind == "merge"]
         first = [s for s in merges if s.self_none]
-        if len(a["sites"]) != 4 or len(first) != 1:
+        # (the container-level hand-over of the field's answer may be written once - after recording whether the field's
+        # error type said Break - or twice, once per answer)
+        if len(a["sites"]) not in (3, 4) or len(first) != 1:
             R.bad("C11.TRYFROM", body, "the failure of %s is not handed over exactly once (to the field's error type, then to the container's)%s" % (fn, where), b.span,
                   "sites=%d none-self merges=%d" % (len(a["sites"]), len(first)))
         else:
@@ -706,21 +708,37 @@ def validate(R, b, v, bs, sk, sp, cl):
                 if not is_own_location(cv, canon(cv, s.loc), names):
                     R.bad("C11.VALIDATE", body, "a user function's error is handed over at a location other than the container's", b.span, fmt(canon(cv, s.loc)))
     if not okm:
+        # ... or on the Err arm of a `match validate(..)` in the function itself
+        for s in bs.sites:
+            if s.kind == "merge" and s.self_none and s.handling == "collapsed":
+                oth = canon(v, s.payload)
+                if oth[0] == "field" and oth[2] == "Err" and isinstance(oth[1], tuple) and oth[1][0] == "call" and oth[1][1] == got["bb"]:
+                    okm = True
+                    if not is_own_location(v, canon(v, s.loc), names):
+                        R.bad("C11.VALIDATE", body, "a user function's error is handed over at a location other than the container's", b.span, fmt(canon(v, s.loc)))
+    if not okm:
         R.bad("C11.VALIDATE", body, "a validation failure is not handed to the error type", b.span)
     # returned value is the validate result
     from coll import ok_assignments
     rets = ok_assignments(v)
     good = False
+    validated_ok = set()
     for kind, bb, term, op in rets:
         if kind == "call":
             tt = canon(v, term)
             if term_mentions(tt, lambda x: x[0] == "call" and x[1] == got["bb"]):
                 good = True
+        if kind == "ok":
+            # `match validate(..) { Ok(v) => Ok(v), Err(e) => .. }`: the value handed back by validate itself
+            al_ = [strip_refs(canon(v, a_)) for a_ in v.alts(term)]
+            if al_ and all(a_[0] == "field" and a_[2] == "Ok" and isinstance(a_[1], tuple) and a_[1][0] == "call" and a_[1][1] == got["bb"] for a_ in al_):
+                good = True
+                validated_ok.add(bb)
     if not good:
         R.bad("C11.VALIDATE", body, "what validate returns is not what the call returns", b.span)
     # no success leaves the function without having gone through validate
     for kind, bb, term, op in rets:
-        if kind == "ok":
+        if kind == "ok" and bb not in validated_ok:
             R.bad("C11.VALIDATE", body, "a value can be returned without having been validated", b.span)
     else:
         R.sample("C11", {"type": sp["name"], "validate": want["fn"], "receives": "payload of the container's own `?`"})
